@@ -443,6 +443,88 @@ def _stmt(n):
     return n
 
 
+def _read_until_found_model(cx, rep, p, r):
+    """_read_until_found decided on every sequence of at most four abstract reads (nothing / a chunk without a line break / a chunk with one):
+    it reads until a chunk contains a line break or the stream returns nothing, appends every chunk it read to the buffer in read
+    order, sets `exhausted` exactly when a read returned nothing, and does not read at all once exhausted.  True when decided."""
+    from .. import absexec as AX
+    bad = {}
+    n = 0
+    for start_exhausted in (False, True):
+        selfv, stream, b0 = AX.Abs('Self'), AX.Abs('Stream'), AX.Abs('Str', id='B0')
+        init = {'exhausted': start_exhausted, 'buffer': b0, 'stream': stream, 'chunk_size': 7}
+
+        def on_attr(ex, node, obj, attr, init=init):
+            if obj is selfv and attr in init:
+                return init[attr]
+            return AX.NOT_HANDLED
+
+        def on_call(ex, node, fname, recv, args, stream=stream):
+            short = node.func.attr if isinstance(node.func, ast.Attribute) else fname.split('.')[-1]
+            if recv is stream and short == 'read':
+                k = len([1 for lab, _, _ in ex.run.choices if lab == 'read'])
+                return ex.choose('read', ['', (lambda k=k: AX.Abs('Chunk', id='c%d' % (k + 1), nl=False)), (lambda k=k: AX.Abs('Chunk', id='c%d' % (k + 1), nl=True))])
+            if short in ('search', 'findall', 'match') and args and isinstance(args[-1], AX.Abs) and args[-1].kind == 'Chunk':
+                return AX.Abs('Match') if args[-1].props['nl'] else None
+            if isinstance(recv, AX.Abs) and recv.kind == 'Chunk':
+                raise Undecided('operation {} on a chunk is outside the model'.format(short), node)
+            return AX.NOT_HANDLED
+        ex = AX.Explorer(p, 'rbql_csv', on_call=on_call, on_attr=on_attr, max_choices=4)
+        try:
+            runs, cut = ex.explore(r, [selfv], cls='CSVRecordIterator')
+        except Undecided as e_:
+            import os
+            if os.environ.get('RBQL_VERIF_DEBUG'):
+                print('_read_until_found model gave up:', e_)
+            return False
+
+        def flat(v):
+            if isinstance(v, AX.Abs) and v.kind in ('Text',):
+                return [y for x in v.props['parts'] for y in flat(x)]
+            if isinstance(v, AX.Abs) and v.kind == 'Joined':
+                return [y for x in v.props['items'] for y in flat(x)] if v.props['sep'] == '' else [v]
+            if isinstance(v, (list, tuple)):
+                return [y for x in v for y in flat(x)]
+            if v == '':
+                return []
+            return [v]
+        for run in runs:
+            n += 1
+            reads = [v for lab, _, v in run.choices if lab == 'read']
+            desc = 'reads [{}]{}'.format(', '.join('nothing' if x == '' else ('chunk with a line break' if x.props['nl'] else 'chunk without line break') for x in reads), ' (already exhausted)' if start_exhausted else '')
+            if run.outcome[0] != 'return':
+                bad.setdefault('read until newline', desc + ': raises')
+                continue
+            if start_exhausted:
+                if reads:
+                    bad.setdefault('exhaustion', 'the stream is read again after it reported its end')
+                continue
+            # expected stop: first empty read or first chunk with a line break
+            stop = next((i for i, x in enumerate(reads) if x == '' or x.props['nl']), None)
+            if stop is None:
+                bad.setdefault('read until newline', desc + ': reading stops although no line break was seen and the stream did not end')
+                continue
+            if stop != len(reads) - 1:
+                bad.setdefault('read until newline', desc + ': reading goes on after a chunk with a line break / after the end of the stream')
+                continue
+            exhausted = run.state.get((selfv.uid, 'exhausted'), start_exhausted)
+            if bool(exhausted) != (reads[-1] == ''):
+                bad.setdefault('exhaustion', desc + ': exhausted is {} afterwards'.format(exhausted))
+            buf = flat(run.state.get((selfv.uid, 'buffer'), b0))
+            want = [b0] + [x for x in reads if x != '']
+            if not (len(buf) == len(want) and all(a is b for a, b in zip(buf, want))):
+                bad.setdefault('chunks appended', desc + ': the buffer afterwards is not the old buffer followed by every chunk read, in read order')
+    if n < 6:
+        import os
+        if os.environ.get('RBQL_VERIF_DEBUG'):
+            print('_read_until_found model: only', n, 'runs', bad)
+        return False
+    rep.decide('exhaustion' not in bad, 'exhaustion', r, 'exhausted is set exactly when read() returns nothing ({} abstract read sequences)'.format(n), 'the exhausted flag is not set exactly on an empty read: ' + bad.get('exhaustion', ''))
+    rep.decide('read until newline' not in bad, 'read until newline', r, 'reading stops when a chunk contains a line break or the stream ends', bad.get('read until newline', ''))
+    rep.decide('chunks appended' not in bad, 'chunks appended', r, 'every chunk read is appended to the buffer in read order', bad.get('chunks appended', ''))
+    return True
+
+
 def rule_rd_eof(cx, rep, port):
     p = cx.port(port)
     if port == 'py':
@@ -508,6 +590,9 @@ def rule_rd_eof(cx, rep, port):
                 rep.undecided('empty remainder', m, 'paths testing the remainder not recognised')
         # _read_until_found sets exhausted only on an empty read
         r = ms['_read_until_found']
+        if _read_until_found_model(cx, rep, p, r):
+            return
+        rep._fallback = '_read_until_found is outside the abstract interpreter'
         ex = [n for n in walk_no_nested(r) if isinstance(n, ast.Assign) and dotted(n.targets[0]) == 'self.exhausted' and is_true(n.value)]
         rv = [n.targets[0].id for n in walk_no_nested(r) if isinstance(n, ast.Assign) and isinstance(n.value, ast.Call) and call_name(n.value) == 'self.stream.read' and isinstance(n.targets[0], ast.Name)]
         ok = len(ex) == 1 and len(rv) == 1 and isinstance(ex[0].parent, ast.If) and _tests_empty(ex[0].parent.test, rv[0]) is True and ex[0] in ex[0].parent.body
